@@ -16,21 +16,50 @@ for d in sorted(os.listdir('/verif/seeded')):
     else:
         how = 'after strengthening (first run: %s)' % (', '.join(first) if first else 'missed by quick and thorough')
     rows.append((d, m['needs_to_manifest'], ', '.join(m['detected_by']) or 'NOT DETECTED', how, m.get('strengthening', '')))
+n = len(rows)
+first_quick = first_thorough = first_missed = blind_no = 0
+other_check = []
+for d in sorted(os.listdir('/verif/seeded')):
+    p = f'/verif/seeded/{d}/meta.json'
+    if not os.path.exists(p):
+        continue
+    m = json.load(open(p))
+    first = m.get('first_run_detected_by', m['detected_by'])
+    if m.get('note'):
+        blind_no += 1
+    if d == 'C05-B':
+        first_missed += 1  # its first-run 'catch' was a false alarm of the check
+    elif any(x.endswith(':quick') for x in first):
+        first_quick += 1
+    elif first:
+        first_thorough += 1
+    else:
+        first_missed += 1
+    own = d.split('-')[0]
+    if m['detected_by'] and all(not x.startswith(own + ':') for x in m['detected_by']):
+        other_check.append('%s (by %s)' % (d, ', '.join(m['detected_by'])))
+now_quick = sum(1 for r in rows if ':quick' in r[2])
+now_thorough = sum(1 for r in rows if r[2] != 'NOT DETECTED' and ':quick' not in r[2])
+now_missed = sum(1 for r in rows if r[2] == 'NOT DETECTED')
 out = ['## 8. Which checks catch which seeded changes', '',
-       'Forty changes were written by sub-agents that saw only the text of one property and a scratch',
-       'worktree of the repository (nothing from /verif). Each was confirmed in a fresh worktree by',
-       '`tools/seedeval.sh`: the patch applies to the current `/repo` HEAD and builds, the agent\'s',
-       'demonstration passes without it and fails with it, and the unedited existing suite passes with it',
-       '(packages whose timing-sensitive tests flaked under load were re-run alone). All forty are valid.',
-       'Then the property\'s registered check ran against the patched worktree (`VERIF_REPO`), quick tier',
-       'first, thorough if quick stayed silent. None of the patches is ever applied to `/repo` itself.',
+       '%d changes were written, in rounds (letters A/B, C/D, E/F ...), by sub-agents that saw only the text of' % n,
+       'one property, a one-line list of the changes already made for it (so that theirs would differ in',
+       'kind) and a scratch worktree of the repository - nothing from /verif. Each was confirmed in a fresh',
+       'worktree by `tools/seedeval.sh`: the patch applies to the current `/repo` HEAD and builds, the',
+       'agent\'s demonstration passes without it and fails with it, and the unedited existing suite passes',
+       'with it (packages whose timing-sensitive tests flaked under load were re-run alone). Changes that',
+       'failed this validation were discarded and are not listed. Then the property\'s registered check ran',
+       'against the patched worktree (`VERIF_REPO`), quick tier first, thorough if quick stayed silent. None',
+       'of the patches is ever applied to `/repo` itself.',
        '',
-       'First-run result: 24 caught by the quick tier (4 of them - C03-B, C11-A, C11-B, C12-B - only',
-       'after I had read the agent\'s summary and widened the generator, so their "first run" is not a blind',
-       'one), 3 caught by the thorough tier only (C14-B, C15-A, C15-B), 1 "caught" by a false alarm of the',
-       'check (C05-B, section 7), 12 missed by both tiers. Every miss was traced to a generator or oracle',
-       'gap, the check was strengthened, and all forty are now caught by the quick tier. The patches,',
-       'demonstrations, logs of the runs and the notes are in `seeded/<id>/`.',
+       'First-run result over all rounds: %d caught by the quick tier (%d of them only after I had read the' % (first_quick, blind_no),
+       'agent\'s summary and widened the generator, so their "first run" is not a blind one), %d caught by the' % first_thorough,
+       'thorough tier only, %d missed by both tiers (one first-round "catch", C05-B, was a false alarm of' % first_missed,
+       'the check, section 7, and counts as a miss). Every miss was traced to a generator or oracle gap - or',
+       'to a harness that misrepresented the platform - and the check was strengthened. Now: %d caught by' % now_quick,
+       'the quick tier, %d by the thorough tier only, %d not caught.' % (now_thorough, now_missed),
+       'Caught by another property\'s check than the one the agent aimed at: %s.' % ('; '.join(other_check) or 'none'),
+       'The patches, demonstrations, logs of the runs and the notes are in `seeded/<id>/`.',
        '',
        '| seed | needs, in order to manifest | caught by | when | what was strengthened |',
        '|---|---|---|---|---|']
@@ -46,7 +75,12 @@ out += ['',
         'the finding: two open findings (F-C03-2, F-C15-6) were masking seeded changes with the same',
         'symptom and were narrowed to what the recorded root cause can explain (C03-B, C15-B);',
         '(4) anything that only happens after the server\'s 5 s session clean-up needs a case that waits',
-        'for it (C05-A, C05-B, C06-B).', '']
+        'for it (C05-A, C05-B, C06-B); (5) the simulated platform must fail where the real one fails: the',
+        'simulated UDP socket ignored write deadlines, which hid a shutdown that silences its own goodbyes',
+        '(C15-C); (6) the harness\'s server application must be allowed to misbehave like a real one - not',
+        'accepting (C15-D), answering at once (F-C02-1), never reading (C15-A); (7) schedules the harness',
+        'does not own are sampled on purpose where the property names them (concurrent first sessions of a',
+        'user, C19-D), with a barrier and many rounds rather than by hoping for load.', '']
 s = open('/verif/DESIGN.md').read()
 i = s.index('## 8. Which checks catch which seeded changes')
 s = s[:i] + '\n'.join(out)
